@@ -8,14 +8,14 @@ CONSTANTS
   BatchSet = {2}
   PathSet = {"async", "sync"}
   MaxPauses = 1
-  MaxRestarts = 0
-  Kinds = {"waive", "stale", "equal", "future", "neg"}
-  Pols = {"leader", "none"}
-  Vias = {"api"}
+  MaxRestarts = 1
+  Kinds = {"waive", "stale", "equal"}
+  Pols = {"leader"}
+  Vias = {"api", "natsq"}
   MaxHolds = 0
-  MaxSnaps = 0
-  MaxInstalls = 0
-  Snap0Set = {"none"}
+  MaxSnaps = 1
+  MaxInstalls = 1
+  Snap0Set = {"none", "pred", "cur"}
   SnapKeeps = TRUE
   Mut = "none"
 INVARIANTS TypeOK C16_Dense C16_Once C16_StoredAtExpected C16_AckOffset C16_RejectNotStored C16_RejectJustified C16_WaivedAccepted C16_OneWinner C16_NoneNotSilent C16_Answered C16_UnstoredJustified I_NoExpAsZero I_OccKept I_Resolved I_NonOccAll I_Order I_RejectWindow
